@@ -362,7 +362,11 @@ def check_builders(ctx):
         vl, vt, rho = float(rng.uniform(1000, 7000)), float(rng.uniform(500, 3500)), float(rng.uniform(500, 9000))
         mconf = {"longitudinal_vel": vl, "transverse_vel": vt, "density": rho, "state_of_matter": str(rng.choice(["solid", "liquid"])),
                  "metadata": {"long_name": "M"}}
-        att = float(rng.uniform(0, 100))
+        # (0.0 is a configured value like any other: a lossless reference run switches the attenuation off with the bare float 0.0)
+        att = 0.0 if rng.random() < 0.25 else float(rng.uniform(0, 100))
+        tatt = [None, 0.0, float(rng.uniform(0, 50))][int(rng.integers(0, 3))]
+        if tatt is not None:
+            mconf["transverse_att"] = tatt
         if rng.random() < 0.5:
             mconf["longitudinal_att"] = att
         elif rng.random() < 0.5:
@@ -378,8 +382,10 @@ def check_builders(ctx):
             ok = ok and abs(m.longitudinal_att(3e6) - (att + 2.0 * 3 + 0.5 * 9)) < 1e-9
         else:
             ok = ok and m.longitudinal_att is None
+        ok = ok and ((m.transverse_att is None) if tatt is None else (m.transverse_att is not None and m.transverse_att(3e6) == tatt))
+        ctx.count("material_att:" + ("zero" if (la == 0.0 or tatt == 0.0) else "other"))
         if not ok:
-            ctx.violate("material_from_conf does not carry the configured values", cj, {"kind": "material_from_conf"})
+            ctx.violate("material_from_conf does not carry the configured values (velocities, density, state, attenuation laws incl. a configured 0.0)", cj, {"kind": "material_from_conf"})
         # the configuration is read, never shared: annotating what was built (metadata of materials / probes / examination
         # objects, as load_expdata itself does with metadata["from_brain"]) leaves the configuration as loaded, and what is
         # built next carries the configured values again
